@@ -619,3 +619,67 @@ Proof.
   intros envs fsets variants H Hne Hok f u Hf Hb.
   apply arb_ctap2_request_valid; try assumption. exact (proj1 (forallb_forall _ _) H f Hf).
 Qed.
+
+(* CTAP1: Register / Authenticate with 32-byte challenge and application id and a declared control byte, or Version *)
+Definition ctap1_payload_ok (name : string) (v : val) : Prop :=
+  v = VUnit \/
+  (exists c a, v = VRec [("challenge", VBytes c); ("app_id", VBytes a)] /\ blen c = 32 /\ blen a = 32) \/
+  (exists cb c a kh, v = VRec [("control_byte", VEnum cb); ("challenge", VBytes c); ("app_id", VBytes a); ("key_handle", VBytes kh)]
+                     /\ In cb control_bytes /\ blen c = 32 /\ blen a = 32).
+
+Lemma arb_ctap1_register_sub : forall u v u', arb_ctap1_register u = AOk v u' -> sub u' u.
+Proof.
+  intros u v u' H. unfold arb_ctap1_register in H.
+  destruct (arbitrary_byte_array 32 u) as [c u1| |s] eqn:E1; cbn [abind] in H; try discriminate.
+  destruct (arbitrary_byte_array 32 u1) as [a u2| |s] eqn:E2; cbn [abind] in H; try discriminate.
+  injection H as _ <-. eapply sub_trans; [apply (arbitrary_byte_array_sub _ _ _ _ E2)|apply (arbitrary_byte_array_sub _ _ _ _ E1)].
+Qed.
+
+Lemma arb_ctap1_authenticate_sub : forall cbs u v u', arb_ctap1_authenticate cbs u = AOk v u' -> sub u' u.
+Proof.
+  intros cbs u v u' H. unfold arb_ctap1_authenticate in H.
+  destruct (arb_variant (blen cbs) u) as [ix u0] eqn:E0.
+  assert (S0 : sub u0 u).
+  { unfold arb_variant in E0. destruct (arb_u32 u) as [x ux] eqn:Ex. injection E0 as _ <-. exact (fill_sub 4 u x ux Ex). }
+  destruct (arbitrary_byte_array 32 u0) as [c u1| |s] eqn:E1; cbn [abind] in H; try discriminate.
+  destruct (arbitrary_byte_array 32 u1) as [a u2| |s] eqn:E2; cbn [abind] in H; try discriminate.
+  destruct (arb_slice u2) as [kh u3| |s] eqn:E3; cbn [abind] in H; try discriminate.
+  injection H as _ <-.
+  eapply sub_trans; [apply (arb_slice_sub _ _ _ E3)|].
+  eapply sub_trans; [apply (arbitrary_byte_array_sub _ _ _ _ E2)|].
+  eapply sub_trans; [apply (arbitrary_byte_array_sub _ _ _ _ E1)|exact S0].
+Qed.
+
+Definition ctap1_variant_ok (v : string * list ty) : bool :=
+  match snd v with
+  | [] => true
+  | [TNamed n] => String.eqb n "ctap1::register::Request" || String.eqb n "ctap1::authenticate::Request"
+  | _ => false
+  end.
+
+Theorem arb_ctap1_request_valid : forall variants u, variants <> [] -> forallb ctap1_variant_ok variants = true -> bytes_ok u = true ->
+  match arb_ctap1_request variants u with
+  | AOk (name, v) u' => (exists ts, In (name, ts) variants) /\ ctap1_payload_ok name v /\ bytes_ok u' = true
+  | ANotEnough => True
+  | APanic _ => False
+  end.
+Proof.
+  intros variants u Hne Hok Hb. unfold arb_ctap1_request.
+  pose proof (pick_variant_fine variants u Hne Hb) as P.
+  destruct (pick_variant variants u) as [[name ts] u1| |s]; cbn [abind fine] in *; try exact P.
+  destruct P as [Hin S1]. assert (Hb1 : bytes_ok u1 = true) by (eapply bytes_ok_sub; eassumption). cbn [fst snd].
+  pose proof (proj1 (forallb_forall _ _) Hok _ Hin) as V. unfold ctap1_variant_ok in V. cbn [snd] in V.
+  destruct ts as [|t [|t2 ts]]; [|destruct t; try discriminate|destruct t; discriminate].
+  - split; [exists []; exact Hin|]. split; [left; reflexivity|exact Hb1].
+  - match goal with |- context [String.eqb ?nm "ctap1::register::Request"] => rename nm into n end.
+    destruct (String.eqb n "ctap1::register::Request").
+    + pose proof (arb_ctap1_register_valid u1) as R.
+      destruct (arb_ctap1_register u1) as [v u2| |s] eqn:E; cbn [abind] in *; try exact R.
+      split; [exists [TNamed n]; exact Hin|]. split; [right; left; exact R|].
+      eapply bytes_ok_sub; [apply (arb_ctap1_register_sub _ _ _ E)|exact Hb1].
+    + cbn [orb] in V. rewrite V.
+      pose proof (arb_ctap1_authenticate_valid control_bytes u1 ltac:(discriminate) Hb1) as R.
+      destruct (arb_ctap1_authenticate control_bytes u1) as [v u2| |s] eqn:E; cbn [abind] in *; try exact R.
+      split; [exists [TNamed n]; exact Hin|]. split; [right; right; exact R|].
+      eapply bytes_ok_sub; [apply (arb_ctap1_authenticate_sub _ _ _ _ E)|exact Hb1].
+Qed.
